@@ -121,12 +121,16 @@ ItemsMatch(s, r) == Len(s) = Len(r) /\ VMatchSeq(s, r, 1)
 
 (* Multiset equality of two item sequences under VMatch (used when the      *)
 (* order of object members cannot be enumerated).                           *)
-RECURSIVE FirstMatch(_, _, _), BagMatch(_, _)
+RECURSIVE FirstMatch(_, _, _), BagMatch0(_, _)
 FirstMatch(x, r, i) ==
   IF i > Len(r) THEN 0 ELSE IF VMatch(x, r[i]) THEN i ELSE FirstMatch(x, r, i + 1)
-BagMatch(s, r) ==
+BagMatch0(s, r) ==
   IF Len(s) # Len(r) THEN FALSE
   ELSE IF Len(s) = 0 THEN TRUE
   ELSE LET i == FirstMatch(s[1], r, 1)
-       IN i # 0 /\ BagMatch(Tail(s), VRemoveAt(r, i))
+       IN i # 0 /\ BagMatch0(Tail(s), VRemoveAt(r, i))
+(* wildcards (anyid) are matched last so that they cannot consume a number  *)
+(* a concrete item needs                                                    *)
+BagMatch(s, r) ==
+  BagMatch0(SelectSeq(s, LAMBDA x : x.t # "anyid") \o SelectSeq(s, LAMBDA x : x.t = "anyid"), r)
 =============================================================================
